@@ -20,7 +20,6 @@ import (
 
 	"github.com/openconfig/gnmi/manager"
 	gpb "github.com/openconfig/gnmi/proto/gnmi"
-	tpb "github.com/openconfig/gnmi/proto/target"
 )
 
 // Ev is one entry of the totally ordered trace.
@@ -153,6 +152,8 @@ type tgRun struct {
 	spec *Target
 	next int         // number of attempts started so far
 	cur  *attemptRun // attempt in progress (attempts of one target are sequential)
+	// lookups is the number of credentials lookups made for the target so far (scriptedCreds)
+	lookups int
 }
 
 type attemptRun struct {
@@ -258,6 +259,9 @@ func (w *world) Connection(ctx context.Context, addr, dialer string) (*grpc.Clie
 	w.mu.Unlock()
 	if addr != addrOf(tg.spec.Addr) {
 		w.flagHarness("target %s dialled %q, configured %q", name, addr, addrOf(tg.spec.Addr))
+	}
+	if dialer != dialerName(tg.spec.Dialer) {
+		w.flagHarness("target %s: Connection asked for dialer %q, configured %q", name, dialer, dialerName(tg.spec.Dialer))
 	}
 	if w.ov != nil {
 		w.ov.noteDial(name, ar.att)
@@ -606,20 +610,19 @@ func (w *world) execute() (err error) {
 		cfg.ConnectError = func(name string, err error) { w.rec(name, kConnectError, -1, 0, err, "") }
 		cfg.MonitorError = func(name string, err error) { w.rec(name, kMonitorError, -1, 0, err, "") }
 	}
+	if !sc.NoCredClient {
+		cfg.Credentials = scriptedCreds{w}
+	}
 	m, nerr := manager.NewManager(cfg)
 	if nerr != nil {
 		return failf("harness-error", "NewManager: %v", nerr)
 	}
 	tmpl := requestTemplate(sc.TmplPrefix)
 	pristine := proto.Clone(tmpl)
-	protos := make([]*tpb.Target, len(sc.Targets))
+	protos := sc.buildProtos()
 	for i := range sc.Targets {
 		spec := &sc.Targets[i]
 		w.tg[tname(i)] = &tgRun{name: tname(i), idx: i, spec: spec}
-		protos[i] = &tpb.Target{Addresses: []string{addrOf(spec.Addr)}}
-		if spec.Meta != "" {
-			protos[i].Meta = map[string]string{"receive_timeout": spec.Meta}
-		}
 		for n, total := 0, scriptLen(spec.Attempts); n < total; n++ {
 			a, _ := scriptAt(spec.Attempts, n)
 			for pos, msg := range a.Msgs {
@@ -639,7 +642,7 @@ func (w *world) execute() (err error) {
 			info = "duplicate"
 		}
 		w.rec(name, kAddCall, -1, 0, nil, info)
-		aerr := m.Add(name, protos[i], tmpl)
+		aerr := m.Add(name, sc.protoForAdd(protos, i), tmpl)
 		w.rec(name, kAddRet, -1, 0, aerr, info)
 		if aerr == nil {
 			managed[name] = true // (for a duplicate this is a violation the judge reports)
